@@ -234,7 +234,12 @@ def check(pid, tier, args):
         seen.add(r["oracle"])
         path, ok = minimise_and_verify(pid, r, tier, minimise_s)
         if ok:
-            violations.append((path, r["oracle"], True, r.get("detail", "")))
+            try:
+                with open(path) as f:
+                    det = json.load(f)["violation"].get("detail") or r.get("detail", "")
+            except Exception:
+                det = r.get("detail", "")
+            violations.append((path, r["oracle"], True, det))
         else:
             harness.append(f"violation {r['oracle']} of run seed={r['seed']} did not reproduce on replay ({path}) - downgraded to harness error")
 
